@@ -12,7 +12,7 @@ import (
 
 	"github.com/xelaj/mtproto/internal/encoding/tl"
 	"github.com/xelaj/mtproto/internal/mtproto/objects"
-	_ "github.com/xelaj/mtproto/telegram"
+	"github.com/xelaj/mtproto/telegram"
 )
 
 type Field struct {
@@ -139,6 +139,16 @@ func All() []Ctor {
 		if t.Kind() == reflect.Ptr && t.Elem().Kind() == reflect.Struct {
 			for i := 0; i < t.Elem().NumField(); i++ {
 				walk(t.Elem().Field(i).Type)
+			}
+		}
+	}
+	// ... and as a result type of a client method (e.g. telegram.AccountThemes)
+	ct := reflect.TypeOf(&telegram.Client{})
+	for i := 0; i < ct.NumMethod(); i++ {
+		mt := ct.Method(i).Type
+		for o := 0; o < mt.NumOut(); o++ {
+			if ot := mt.Out(o); ot.PkgPath() == ct.Elem().PkgPath() || ot.Kind() == reflect.Slice {
+				walk(ot)
 			}
 		}
 	}
